@@ -457,8 +457,12 @@ class StmtMixin:
             s1 = r.st.copy(); s1.assume(t)
             s2 = r.st.copy(); s2.assume(z3.Not(t))
             self.narrow(s1, s.test, True); self.narrow(s2, s.test, False)
-            if self.feasible(s1): out += self.block(s1, s.body)
-            if self.feasible(s2): out += self.block(s2, s.orelse)
+            f1, f2 = self.feasible(s1), self.feasible(s2)
+            if not self.spec_depth and self.depth == 0:
+                b = self.branch_cov.setdefault(s.lineno, [False, False])      # which sides of this test were ever feasible
+                b[0] = b[0] or f1; b[1] = b[1] or f2
+            if f1: out += self.block(s1, s.body)
+            if f2: out += self.block(s2, s.orelse)
         return out
 
     NARROW = {"list": "list", "List": "list", "dict": "dict", "set": "set", "tuple": "tuple", "str": "str", "float": "float", "Path": "Path"}
